@@ -28,7 +28,7 @@ try:
         lines = [l for l in out.split("\n") if l.startswith(("VIOLATION", "  clause", "INTERNAL")) or "Traceback" in l]
         if any(l.startswith("VIOLATION") for l in lines):
             vio.append(p)
-        print("%s %s rc=%d %ds %s" % (a.label, p, rc, time.time() - t1, " | ".join(l[:300] for l in lines[:3])), flush=True)
+        print("%s %s rc=%d %ds violation=%s %s" % (a.label, p, rc, time.time() - t1, "yes" if p in vio else "no", " | ".join(l[:300] for l in lines[:3])), flush=True)
     print("== %s violations=%s wall=%ds" % (a.label, ",".join(vio) or "0", time.time() - t0), flush=True)
 finally:
     shutil.rmtree(work, ignore_errors=True)
